@@ -126,7 +126,19 @@ def gen_pool(rng, cfgname, size, uid0=0, gas_only=False):
         if pool and r < 0.30:
             base = dict(rng.choice(pool))
             v = rng.random()
-            if v < 0.45:
+            if v < 0.12 and base["pseudo"] is None:
+                # same species, other multiplicities: A + A -> B  vs  A -> B ; [A, A, B] vs [A, B, B]
+                side = rng.choice(["R", "P"])
+                lst = list(base[side])
+                if len(lst) >= 3 and len(set(lst)) == 2:
+                    a, b = sorted(set(lst))
+                    lst = [a, a, b] if lst.count(b) == 2 else [a, b, b]
+                elif len(lst) < 3:
+                    lst = lst + [rng.choice(lst)]
+                else:
+                    lst = lst[:-1]
+                base[side] = lst
+            elif v < 0.45:
                 pass  # exact duplicate up to the tag
             elif v < 0.65:
                 base["R"] = list(reversed(base["R"]))
